@@ -52,7 +52,9 @@ Definition programmed (cs : cluster) (g : gateway) (r : route) (p : parentref) :
 
 Definition refs_unresolved (cs : cluster) (r : route) : bool :=
   route_valid r &&
-  existsb (fun ru => rule_usable ru && existsb (fun b => negb (backend_valid cs r b)) (r_backends ru)) (rt_rules r).
+  existsb (fun ru => rule_usable ru &&
+                     (existsb (fun b => negb (backend_valid cs r b)) (r_backends ru) ||
+                      (Nat.ltb 1 (List.length (r_backends ru)) && negb (rule_tls_consistent cs r (r_backends ru))))) (rt_rules r).
 
 Definition route_key_eqb (r : route) (s : route_status) : bool :=
   Bool.eqb (match rt_kind r with KGRPC => true | KHTTP => false end) (rs_grpc s) &&
